@@ -6,6 +6,7 @@ open Nima.C13
 #print axioms tie_single_binding
 #print axioms tie_literals
 #print axioms tie_coerce_order
+#print axioms tie_float_literal
 #print axioms tie_list_item_paren
 #print axioms escapeNix_table
 #print axioms string_roundtrip
@@ -15,11 +16,12 @@ open Nima.C13
 #print axioms roundtrip_partial
 #print axioms readable_iff_avoids
 #print axioms float_repr_readable_iff_dot
+#print axioms float_repr_literal_ok
 #print axioms roundtrip_domain
 #print axioms neg_in_list_roundtrip
 #print axioms neg_in_list_spelling
-#print axioms cex_float_no_dot
-#print axioms cex_float_no_dot_binding
+#print axioms float_repr_roundtrip
+#print axioms float_no_dot_spelling
 #print axioms cex_int_out_of_range
 #print axioms render_deterministic
 #print axioms cex_stable_inline_set
